@@ -58,11 +58,15 @@ CHECKS = {
  "C12": dict(technique="Lean 4 proofs over all 64-bit values, sizes and addresses (return, box/unbox, by-value copy, set-contents frame, capture of the low bytes, little- and big-endian) + guarded differential sweep under ASan",
    text="Theorems C12_will_return, C12_box_roundtrip, C12_by_value, C12_set_contents_written, C12_set_contents_frame, C12_capture, C12_capture_big_endian (Props/C12.lean); tie: boundary and random intptr_t values, double bit patterns (NaN payloads, signed zeros, subnormals, infinities), structures of 1-64/100/257/1000 bytes served three times by one expectation, output parameters at every size/offset inside 0xAA-filled heap blocks, captures into 1/2/4/8-byte variables between guard bytes and into mocks whose parameter names are prefixes of one another, all on the real code in an ASan build.",
    ref="§6 C12"),
+ "C09": dict(technique="Lean 4 proofs (symbol parsing round trip, glob = meaning of the pattern, sort is a permutation, executed = selected, no match => failure) + differential against the real cgreen-runner on generated libraries",
+   text="Theorems C09_discover, C09_glob (sound and complete w.r.t. an inductive meaning of literal+'*' patterns), sortItems_perm, C09_select, C09_no_match_fails, C09_status, C09_missing_library and the F20 witness (Props/C09.lean); tie: generated shared libraries (1-12 tests, and step-1/step/step+1/2*step+1 tests around the discovered list's growth step; several contexts plus the default one; names sharing prefixes) whose test bodies append to an execution log are run through the real cgreen-runner with patterns matching zero/one/several tests, one or several libraries with or without their own patterns, a missing library, and the -q/--xml/-X/-s options; executed multiset and exit status are compared with the model and with an independent fnmatch oracle; library paths up to 3000 characters run in a sanitizer build.",
+   ref="§6 C09"),
 }
 MOCK_NOTE = ("Trusted: Lean kernel, harness/mock_ops.c and the CGREEN_VERIF queue-dump hook, the generators in harness/mock_checks.py. Modelled, not verified: parameter "
              "constraints are integer eq/ne/lt/gt clauses on up to three parameters, return values are integers; side effects, content setters, "
              "capture and double clauses are covered by C12/C15/C16; removal of never_expect entries is modelled as a filter (equivalent under the invariant of at most one per function).")
-NOTES = {"C12": "Trusted: Lean kernel, harness/val_probe.c, ASan as the judge of out-of-bounds writes. The model is thin: the theorems contribute the quantifier, the assurance against a wrong size or address in the C comes from the sweep. Assumed: bit-preserving loads/stores of double by the compiler and ABI; little-endian host (the big-endian branch is proved in the model but not executed).",
+NOTES = {"C09": "Trusted: Lean kernel, the generated libraries and the execution log, Python's fnmatch as independent oracle. Modelled, not verified: nm's output format (a definition line contains ' D ' and the CgreenSpec__ symbol), fnmatch(3) restricted to literals and '*', dlopen/dlsym; the order among tests of equal name after sorting is not modelled (only the multiset is compared).",
+         "C12": "Trusted: Lean kernel, harness/val_probe.c, ASan as the judge of out-of-bounds writes. The model is thin: the theorems contribute the quantifier, the assurance against a wrong size or address in the C comes from the sweep. Assumed: bit-preserving loads/stores of double by the compiler and ABI; little-endian host (the big-endian branch is proved in the model but not executed).",
          "C10": "Trusted: Lean kernel, translate/formats.py (clang-14 JSON AST walk; kept to call sites, literals and types), harness/cmp_probe.c (captures the message with vsnprintf, i.e. glibc's printf family as the judge of what a format prints). Modelled, not verified: glibc printf conversions as modelled by Fmt.parseConv; double-valued messages (%f) are typed but their digits are not compared; the +512 slack of the message buffer is not proved sufficient (ASan watches it).",
          "C16": "Trusted: Lean kernel, harness/tok_probe.c, the generated bind_probe translation unit, gcc's preprocessor (stringification). Modelled: identifiers contain no comma, parenthesis or white space; a trailing comma (which the preprocessor cannot produce) is outside the model.",
          "C20": "Trusted: Lean kernel, harness/vec_ops.c, harness/scenario_run.c, AddressSanitizer/UBSan as the judge of memory safety. Partial: the theorem covers CgreenVector (which backs expectations, constraints, parameter names and the runner's test list); fixed buffers, the breadcrumb and suite arrays are covered only by the sanitizer sweep, and memory safety of code the sweep does not reach is not shown.",
